@@ -1,57 +1,57 @@
 // replay for property C13, harness h13a_exact_r32_n22 (package boa_engine, flags --no-default-features)
 // failing checks: verif: parseInt digits are the correctly rounded exact integer
-// native reproduction: [{"fn": "kani_concrete_playback_h13a_exact_r32_n22_1348505894472050267", "dev_fails": true, "release_fails": null, "panic": "panicked at core/engine/src/builtins/number/verif_kani_globals_c13a.rs:305:1:\nverif: parseInt digits are the correctly rounded exact integer"}]
+// native reproduction: [{"fn": "kani_concrete_playback_h13a_exact_r32_n22_14523342926000647749", "dev_fails": true, "release_fails": null, "panic": "panicked at core/engine/src/builtins/number/verif_kani_globals_c13a.rs:305:1:\nverif: parseInt digits are the correctly rounded exact integer"}]
 // @replay package=boa_engine harness=h13a_exact_r32_n22 tag=c13a flags=--no-default-features
 /// Test generated for harness `builtins::number::globals::verif_kani_globals_c13a::h13a_exact_r32_n22` 
 ///
 /// Check for `assertion`: ""verif: parseInt digits are the correctly rounded exact integer""
 #[test]
-fn kani_concrete_playback_h13a_exact_r32_n22_1348505894472050267() {
+fn kani_concrete_playback_h13a_exact_r32_n22_14523342926000647749() {
     let concrete_vals: Vec<Vec<u8>> = vec![
+        // 85
+        vec![85],
         // 49
         vec![49],
-        // 86
-        vec![86],
-        // 71
-        vec![71],
-        // 104
-        vec![104],
+        // 49
+        vec![49],
         // 48
         vec![48],
         // 48
         vec![48],
+        // 66
+        vec![66],
+        // 48
+        vec![48],
+        // 48
+        vec![48],
+        // 48
+        vec![48],
+        // 48
+        vec![48],
+        // 50
+        vec![50],
+        // 48
+        vec![48],
+        // 49
+        vec![49],
         // 56
         vec![56],
-        // 104
-        vec![104],
-        // 49
-        vec![49],
-        // 48
-        vec![48],
         // 56
         vec![56],
-        // 52
-        vec![52],
+        // 51
+        vec![51],
         // 48
         vec![48],
         // 48
         vec![48],
-        // 48
-        vec![48],
-        // 48
-        vec![48],
-        // 55
-        vec![55],
-        // 52
-        vec![52],
+        // 80
+        vec![80],
+        // 53
+        vec![53],
         // 49
         vec![49],
-        // 68
-        vec![68],
-        // 100
-        vec![100],
-        // 100
-        vec![100],
+        // 49
+        vec![49],
     ];
     kani::concrete_playback_run(concrete_vals, h13a_exact_r32_n22);
 }
